@@ -30,10 +30,10 @@ def run(tier, replay=None):
             f.write(json.dumps([{"a": x["a"], "t": x["t"]} for x in s]) + "\n")
     c.exhaustive = False
     # (V) real code
-    drive = vlib.build_harness()
+    drive = vlib.build_harness(cmd="c20")
     trace = c.work / "c20.ndjson"
     n, scen = (2000, 20) if tier == "quick" else (6000, 120)
-    st = vlib.run_driver(drive, ["c20", "-out", trace, "-gen", genf, "-seed", c.seed, "-n", n, "-scen", scen])
+    st = vlib.run_driver(drive, ["-out", trace, "-gen", genf, "-seed", c.seed, "-n", n, "-scen", scen])
     r, lines = c.validate_trace("Limiter_Trace", trace)
     events = vlib.read_ndjson(trace)
     for f in vlib.bad_to_failures(r, events):
@@ -44,8 +44,8 @@ def run(tier, replay=None):
     c.samples = st.get("samples", [])
     c.extra["replayed_tlc_sequences"] = len(seqs)
     # race clause: child process with the race detector
-    drive_race = vlib.build_harness(race=True)
-    reports, rc, tail = vlib.run_race_child(drive_race, ["c20", "-mode", "racechild", "-seed", c.seed])
+    drive_race = vlib.build_harness(race=True, cmd="c20")
+    reports, rc, tail = vlib.run_race_child(drive_race, ["-mode", "racechild", "-seed", c.seed])
     c.extra["race_child"] = {"rc": rc, "reports": reports}
     for rep in reports:
         c.add_failure({"clause": "C20.norace", "site": rep["site"], "ev": "race"})
